@@ -22,7 +22,8 @@ ORACLES = {
                    "query_type, and answers every query (check, `in`, all three count-min query types, estimate_elements, "
                    "current_false_positive_rate, load_factor) identically for members and non-members",
     "C05.suffix": "a generated suffix of further operations applied to the original and to the copy keeps them byte-identical",
-    "C05.no_exception": "no export / load call raises",
+    "C05.export_load": "no export / load call raises",
+    "C05.no_exception": "(soft) an exception while BUILDING the state abandons the case; it is counted, not reported - the operation belongs to another property",
 }
 RULE = ("State = configuration + history produced by the drivers of C01 (Bloom / on-disk / expanding incl. unions, clears, reloads), "
         "C09/C10 (expanding / rotating after growth and rotation), C08 (counting Bloom after removals), C02/C17 (CountMinSketch, "
@@ -79,9 +80,10 @@ class Ad:
 
     def __init__(self, ctx, obj):
         self.ctx, self.obj = ctx, obj
+        ctx.soft_noexc = False  # from here on every call is the subject of C05
         self.dir = ctx.tmpdir()
         self.n = 0
-        self.nx = "C05.no_exception"
+        self.nx = "C05.export_load"
 
     def path(self):
         self.n += 1
@@ -379,6 +381,11 @@ def _cuckoo(case, ctx, d):
 
 
 def run_case(case, ctx):
+    ctx.soft_noexc = True  # state building; switched off by the adapters before the export/load calls under test
+    _run_case(case, ctx)
+
+
+def _run_case(case, ctx):
     s = case["s"]
     corner = set()
     if s == "bloom":
